@@ -240,7 +240,8 @@ def compile_batches(chk, r, items, outcomes, tier):
         owners[name] = owner
     dropped = 0
     for rnd in range(3):
-        cmd = ["cargo", "check", "--offline", "--message-format=json"]
+        # (`--tests`: the `#[cfg(test)]` export test generated for `#[ts(export)]` is part of the expansion)
+        cmd = ["cargo", "check", "--offline", "--lib", "--tests", "--message-format=json"]
         for nme in names:
             cmd += ["-p", nme]
         p = C.sh(cmd, cwd=C.HARNESS, timeout=3000)
